@@ -155,7 +155,6 @@ def run_noh(ctx, p):
     eos = make_eos("ideal", dict(gamma=g))
     ic = dict(density=r0, velocity=u0, pressure=0.0, symmetry=geom - 1)
     c = ctx.make(NohBlackBoxEos, eos, ic, geometry=geom)
-    c.rho0, c.u0, c.p0 = r0, u0, 0.0
     # physically reasonable guess: 10 % off the strong-shock values
     rl = r0 * ((g + 1) / (g - 1)) ** geom
     c.set_new_solver_initial_guess([1.1 * rl, 0.9 * 0.5 * u0 * u0, 1.1 * abs(u0) * (g - 1) / 2])
